@@ -172,3 +172,6 @@ HEDTAG_LAYOUT = ("len(original_tag.tag) == len(original_tag.org_base_tag) + (1 +
 from pyvc.contract import CLASSES
 for _c in ("HedTag", "HedGroup", "HedString"):
     CLASSES[_c]["opaque_methods"] = True      # in frame-only (havoc) contracts their unmodelled methods are opaque calls
+
+for _c in ("HedGroup", "HedString"):
+    CLASSES[_c]["structural_eq"] = True       # __eq__ compares children, not identity
